@@ -10,6 +10,7 @@
     the same query is asked first thing; the outcome (canonical value, or exception family) must be the same.
     Thorough tier: the same with the shipped POSC database as the starting point.
 """
+import re
 import pickle
 from collections import OrderedDict
 
@@ -65,6 +66,7 @@ KINDS = [
     "GetUnitName", "FindUnitCase", "CheckValueForCategory", "quantity.GetValidUnits", "ChangeScalars", "compare",
     "derived request (tuple pairs)", "derived request (list overload, tuple items)", "arithmetic on a composition", "derived request (one category at an exponent)",
     "Unknown-type conversions", "Unknown-type values", "ObtainQuantity(u,c,caption)", "ObtainQuantity(u,None,caption)", "GetUnits()/GetInfos()", "GetInfo", "FindSimilarUnitMatches", "IsValidCategory/CheckQuantityType", "quantity getters", "db.Sum/Multiply",
+    "Unknown-type values (the caller keeps them)",
 ]  # fmt: skip
 
 
@@ -236,6 +238,19 @@ def run_query(db, q):
             su = Scalar(GetUnknownQuantity("a caption"), x)
             r = [su, su.GetValue("weird label"), su.GetValue(v), Scalar(x, "<unknown>").GetValue("other label"), db.GetQuantityType("weird label"), db.GetQuantityType("other label"),
                  sorted(k for k in db.unit_to_unit_info if "label" in k)]
+        elif kind == "Unknown-type values (the caller keeps them)":
+            # a caller that keeps what it was given (a curve holding its captioned quantity): what is handed out later - after the
+            # 'Unknown' category was registered again, under another database - is judged by the definitions of *now*
+            from barril.units import GetUnknownQuantity
+
+            qk = GetUnknownQuantity("kept caption")
+            su = Scalar(qk, x)
+            HELD.append(su)
+            del HELD[:-200]
+            info = db.GetCategoryInfo("Unknown")
+            by_limits = not ((info.min_value is not None and not x >= info.min_value) or (info.max_value is not None and not x <= info.max_value))
+            r = [su, ("verdict follows the limits registered now", su.IsValid() == by_limits), ("quantity belongs to the database asked", qk.GetUnitDatabase() is db),
+                 ("category record is the one registered now", qk.GetCategoryInfo() is info)]
         elif kind in ("ObtainQuantity(u,c,caption)", "ObtainQuantity(u,None,caption)"):
             # the rarely used third argument: captioned and caption-less requests for one (category, unit) are
             # different quantities and must not answer for each other
@@ -332,6 +347,10 @@ def history(ctx, r, n_steps, base="empty", fresh_cache=None, script=None):
             ow2 = run_query(warm, q)
         ctx.ev()
         case = {"history": list(hist), "base": base}
+        if ow[0] == "ok" and ", False)" in repr(ow[1]) and "registered now" in repr(ow[1]) + "database asked":
+            stale = [t for t in re.findall(r"\('([a-z A-Z']+)', False\)", repr(ow[1]))]
+            if stale:
+                ctx.violation("query-answered-from-an-earlier-definition:%s" % q[0], {"query": list(q), "not_true": stale, "history_tail": hist[-6:]}, replay=case)
         if before != after:
             ctx.violation("query-changed-the-registry:%s" % q[0], {"query": list(q), "diff": snapshot.diff(before, after), "history_tail": hist[-6:]}, replay=case)
         if ow2 != ow:
@@ -363,6 +382,7 @@ def history(ctx, r, n_steps, base="empty", fresh_cache=None, script=None):
 
 
 KIND_OK, KIND_ODD = {}, {}
+HELD = []
 _BY = []
 
 
@@ -426,6 +446,18 @@ def override_scripts():
         own = ("reg", ("AddUnit", ("rate", "the old symbol as a unit of its own", leg, "%f/2.0", "%f*2.0"), {}))
         scripts.append(rate + [("query", q) for q in asks] + [own] + [("query", q) for q in asks])
         scripts.append(rate + [("query", q) for q in asks[:2]] + [own] + [("query", q) for q in reversed(asks)])
+    # a bare quantity-type name used in a conversion, then a *category* registered under that very name for another quantity type
+    # (no override - the name was free as a category), then the same conversion again; and the 'Unknown' category registered
+    # again with limits while the caller still holds captioned quantities
+    vol2 = [("reg", c) for c in REG[:5]] + volume_type
+    shadow = ("reg", ("AddCategory", ("volume", "length"), {}))
+    conv_q = [(k, "volume", 5.0, "m3", "Mcf", "volume") for k in ("db.Convert", "db.Convert(list)", "GetValue", "Array.GetValues", "db.Convert", "CheckQuantityTypeUnit")]
+    scripts.append(vol2 + [("query", q) for q in conv_q] + [shadow] + [("query", q) for q in conv_q])
+    scripts.append(vol2 + [("query", q) for q in conv_q[:1]] + [shadow] + [("query", q) for q in conv_q[:1]] + [("reg", ("AddCategory", ("volume", "volume"), {"override": True}))] + [("query", q) for q in conv_q])
+    unk = [("reg", c) for c in REG[:7]]
+    kept = [("Unknown-type values (the caller keeps them)", "length", x, "m", "cm", "length") for x in (-5.0, 5.0)]
+    for over_kw in ({"override": True, "min_value": 0.0, "valid_units": ["<unknown>"]}, {"override": True, "max_value": 1.0, "valid_units": ["<unknown>"]}):
+        scripts.append(unk + [("query", q) for q in kept] + [("reg", ("AddCategory", ("Unknown", "Unknown"), dict(over_kw)))] + [("query", q) for q in kept])
     # tuple-pair requests first, arithmetic afterwards (and the other way round)
     for first, second in (("derived request (tuple pairs)", "arithmetic on a composition"), ("derived request (list overload, tuple items)", "arithmetic on a composition"), ("arithmetic on a composition", "derived request (tuple pairs)")):
         for cat, u in (("length", "m"), ("length", "cm"), ("depth", "m")):
